@@ -53,7 +53,7 @@ def spent_address(kind, h):
 WT = {'p2pkh': 'legacy', 'p2wpkh': 'segwit', 'p2sh-p2wpkh': 'p2sh-segwit'}
 
 
-def judge(raw, spent):
+def judge(raw, spent, superfluous=None):
     """spent: list of (kind, hash160 of the key, value).  Returns None when every input satisfies the output it spends, else a description."""
     try:
         version, ins, outs, locktime, has_wit, used = wire.parse_tx(raw)
@@ -62,6 +62,9 @@ def judge(raw, spent):
     if used != len(raw) or len(ins) != len(spent):
         return 'serialised transaction has %d inputs / %d trailing bytes' % (len(ins), len(raw) - used)
     abstract_ins = [(i[0], i[1], i[3]) for i in ins]
+    if superfluous is not None and has_wit and not any(i[4] for i in ins):
+        # BIP144: "If the witness is empty, the old serialization format must be used" - nodes refuse the extended format without any witness
+        superfluous.append(True)
     for n, ((txid, vout, script, seq, wit), (kind, h, value)) in enumerate(zip(ins, spent)):
         if kind == 'p2pkh':
             items = lex(script)
@@ -102,6 +105,8 @@ def run(tier, seed, opens):
     N = 150 if tier == 'quick' else 1500
     failed, cases, ok, refused = [], 0, 0, 0
     seen = set()
+    known = {}
+    listed = {o.get('id') for o in opens}
 
     def fail(inp, observed):
         sig = (observed.split(':')[0][:60], tuple(sorted((d['spends'], d['described_by']) for d in inp['inputs'])), inp['transaction_witness_type'])
@@ -169,8 +174,18 @@ def run(tier, seed, opens):
         except Exception as e:
             refused += 1
             continue
-        why = judge(raw, spent)
-        if why is None:
+        sup = []
+        why = judge(raw, spent, sup)
+        if why is None and sup:
+            # recorded finding: marker and flag written although no input has a witness (all inputs legacy, transaction typed segwit - the default)
+            cex = {'input': dict(descr, raw_hex=raw.hex()), 'observed': 'serialised in the extended (marker 00, flag 01) format with an empty witness for every input',
+                   'expected': 'the old serialisation format (BIP144)', 'confirmed': True, 'obligation': 'api-signing#bounded', 'what': 'sign through the API'}
+            if 'F-C01-superfluous-witness-format' in listed:
+                if len(known.setdefault('F-C01-superfluous-witness-format', [])) < 2:
+                    known['F-C01-superfluous-witness-format'].append(cex)
+            elif len(failed) < 6:
+                failed.append(cex)
+        elif why is None:
             ok += 1
         else:
             fail(dict(descr, raw_hex=raw.hex()), why)
@@ -180,6 +195,6 @@ def run(tier, seed, opens):
     return {'contract': 'api-signing[bounded]', 'target': 'Transaction.add_input / Input.__init__ / Transaction.sign / Transaction.raw',
             'status': 'ok', 'bounded': '%d API-built transactions, 1..3 inputs x 3 spent-output kinds x 4 ways of describing them x 3 transaction witness types; %d refused by the library' % (cases, refused),
             'paths': cases, 'obligations': [{'name': 'api-signing#bounded', 'kind': 'bounded', 'paths': cases, 'discharged': ok + refused, 'failed': failed, 'unknown': 0,
-                                             'secs': 0.0, 'solvers': {'native': cases}, 'known': {}}],
+                                             'secs': 0.0, 'solvers': {'native': cases}, 'known': known}],
             'notes': ['%d of %d transactions refused by the library (not signed)' % (refused, cases)], 'wall_s': time.time() - t0,
             'fuzz': {'runs': 0, 'failures': []}, 'props': ['C01']}
